@@ -167,6 +167,15 @@ def run_scenario(col: Collector, sc, shard_no, slot, index, rng, port_base=12000
         col.count("scenarios_rerun_after_inconclusive_attempt")
         rng.setstate(state)
         spec, sc2, res = _launch(copy.deepcopy(sc), shard_no, slot, index, rng, port_base)
+    elif sc["kind"] == "none" and res.get("outcome") == "raised" and "retried too many times" in str(res.get("exception")):
+        # no fault was injected and the acknowledged layer gave up: a peer did not acknowledge for 20 x 0.8 s of REAL time. On a
+        # starved machine that is the machine (each ack travels over a one-shot socket with a 1 s linger), on a healthy one it
+        # would be a stalled process, i.e. a defect that shows again: the scenario is run once more and only the second
+        # outcome is judged (the first is counted)
+        col.count("fault_free_runs_that_gave_up_in_real_time_and_were_rerun")
+        col.observe("fault_free_run_gave_up_retrying_in_real_time")
+        rng.setstate(state)
+        spec, sc2, res = _launch(copy.deepcopy(sc), shard_no, slot, index, rng, port_base)
     sc = sc2
     label = fault_label(sc)
     wit = {"scenario": {k: v for k, v in sc.items()}, "hosts": [(h["id"], h["workers"]) for h in spec["hosts"]], "faults": spec["faults"], "kill": spec.get("kill"),
